@@ -35,6 +35,11 @@ static int replay_names()
     for (auto &e : s1) cmp(std::string(e.name) + "(x)", e.f(x), e.fn);
     for (auto &e : s2) cmp(std::string(e.name) + "(x, y)", e.f(x, y), e.fn);
     for (auto &e : sv) cmp(std::string(e.name) + "(x, y, z)", e.f({x, y, z}), e.fn);
+    // a name applied to a number of operands it has no library function for denotes an (undefined) function symbol of that name
+    auto in2 = [&](const char *n) { for (auto &e : s2) if (std::string(e.name) == n) return true; return false; };
+    auto inv = [&](const char *n) { for (auto &e : sv) if (std::string(e.name) == n) return true; return false; };
+    for (auto &e : s2) if (!inv(e.name)) cmp(std::string(e.name) + "(x, y, z)", function_symbol(e.name, {x, y, z}), "function_symbol (no three-argument library function of that name)");
+    for (auto &e : s1) if (!in2(e.name) && !inv(e.name)) cmp(std::string(e.name) + "(x, y)", function_symbol(e.name, {x, y}), "function_symbol (no two-argument library function of that name)");
     if (!bad) std::cout << "every listed name of the one-, two- and many-argument tables parses to its library function (boolean-argument tables not replayed)\n";
     return bad;
 }
